@@ -25,7 +25,7 @@ func bridgeTable(sc *scenario) map[string]string {
 		return m
 	}
 	for _, b := range sc.Bridges {
-		m[strings.ToLower(b.FP)] = b.URL
+		m[strings.ToLower(b.FP)] = b.configuredURL()
 	}
 	return m
 }
@@ -271,7 +271,10 @@ func genBridges(t *rapid.T) []bridgeSpec {
 	idx := rapid.SliceOfNDistinct(rapid.IntRange(0, len(pool)-1), n, n, rapid.ID[int]).Draw(t, "bridgeidx")
 	var out []bridgeSpec
 	for _, i := range idx {
-		out = append(out, pool[i])
+		b := pool[i]
+		// most records carry all three members; some leave one out or are written differently
+		b.Form = rapid.SampledFrom([]string{"", "", "", "", "nourl", "noname", "reordered"}).Draw(t, "recordform")
+		out = append(out, b)
 	}
 	return out
 }
